@@ -242,6 +242,12 @@ func (vm *VM) convertPanic(msg any) error {
 		}
 	case OpPanic:
 		return vm.newPanic(msg)
+	case OpSelect:
+		if err, ok := msg.(runtime.Error); ok {
+			if s := err.Error(); s == "send on closed channel" {
+				return vm.newPanic(runtimeError(s))
+			}
+		}
 	case OpSend, -OpSend:
 		switch err := msg.(type) {
 		case runtime.Error:
